@@ -11,15 +11,15 @@ open Gen Serve
 
 /-- `processACRM` as translated = as modelled (the caller passes `headers.First`'s one-element slice). -/
 theorem processACRM_eq (icfg : ICfg) (buf : Buf) (acrm : Bytes) :
-    Gen.Pipeline.processACRM icfg buf acrm [acrm] = Serve.processACRM icfg buf acrm := by
-  unfold Gen.Pipeline.processACRM Serve.processACRM
+    Gen.Pipeline.processACRM icfg buf acrm [acrm] = GoRt.result buf (Serve.processACRM icfg buf acrm) := by
+  unfold Gen.Pipeline.processACRM Serve.processACRM GoRt.result
   cases Methods.isSafelisted acrm <;> cases icfg.allowAnyMethod <;> cases icfg.credentialed <;>
     cases icfg.allowedMethods.contains acrm <;> rfl
 
 /-- `processACRPN` as translated = as modelled. -/
 theorem processACRPN_eq (icfg : ICfg) (buf : Buf) (reqHdrs : HdrMap) :
-    Gen.Pipeline.processACRPN icfg buf reqHdrs = Serve.processACRPN icfg buf reqHdrs := by
-  unfold Gen.Pipeline.processACRPN Serve.processACRPN GoRt.first HdrMap.first
+    Gen.Pipeline.processACRPN icfg buf reqHdrs = GoRt.result buf (Serve.processACRPN icfg buf reqHdrs) := by
+  unfold Gen.Pipeline.processACRPN Serve.processACRPN GoRt.first HdrMap.first GoRt.result
   cases h : reqHdrs Facts.headers_ACRPN with
   | none => rfl
   | some v =>
@@ -31,8 +31,8 @@ theorem processACRPN_eq (icfg : ICfg) (buf : Buf) (reqHdrs : HdrMap) :
 /-- `processOriginForPreflight` as translated = as modelled with the model's own decisions. -/
 theorem processOriginForPreflight_eq (icfg : ICfg) (buf : Buf) (origin : Bytes) :
     Gen.Pipeline.processOriginForPreflight icfg buf origin [origin] =
-      Serve.processOriginForPreflight (modelDec icfg) icfg buf origin := by
-  unfold Gen.Pipeline.processOriginForPreflight Serve.processOriginForPreflight GoRt.parse modelDec
+      GoRt.result buf (Serve.processOriginForPreflight (modelDec icfg) icfg buf origin) := by
+  unfold Gen.Pipeline.processOriginForPreflight Serve.processOriginForPreflight GoRt.parse modelDec GoRt.result
   cases h : Lex.parse origin with
   | none => simp [h]
   | some o =>
@@ -40,8 +40,8 @@ theorem processOriginForPreflight_eq (icfg : ICfg) (buf : Buf) (origin : Bytes) 
 
 /-- `processACRH` as translated = as modelled with the model's own decisions. -/
 theorem processACRH_eq (icfg : ICfg) (buf : Buf) (reqHdrs : HdrMap) (debug : Bool) :
-    Gen.Pipeline.processACRH icfg buf reqHdrs debug = Serve.processACRH (modelDec icfg) icfg buf reqHdrs debug := by
-  unfold Gen.Pipeline.processACRH Serve.processACRH GoRt.lookup modelDec
+    Gen.Pipeline.processACRH icfg buf reqHdrs debug = GoRt.result buf (Serve.processACRH (modelDec icfg) icfg buf reqHdrs debug) := by
+  unfold Gen.Pipeline.processACRH Serve.processACRH GoRt.lookup modelDec GoRt.result
   cases h : reqHdrs Facts.headers_ACRH with
   | none => rfl
   | some acrh =>
@@ -71,10 +71,10 @@ theorem handleCORSActual_eq (icfg : ICfg) (h : HdrMap) (origin : Bytes) (isOPTIO
 
 /-- The four decision steps of the preflight pipeline, as translated from the working tree, are the modelled ones. -/
 theorem pipeline_eq (icfg : ICfg) (buf : Buf) (reqHdrs : HdrMap) (origin acrm : Bytes) (debug : Bool) :
-    Gen.Pipeline.processOriginForPreflight icfg buf origin [origin] = Serve.processOriginForPreflight (modelDec icfg) icfg buf origin ∧
-    Gen.Pipeline.processACRPN icfg buf reqHdrs = Serve.processACRPN icfg buf reqHdrs ∧
-    Gen.Pipeline.processACRM icfg buf acrm [acrm] = Serve.processACRM icfg buf acrm ∧
-    Gen.Pipeline.processACRH icfg buf reqHdrs debug = Serve.processACRH (modelDec icfg) icfg buf reqHdrs debug :=
+    Gen.Pipeline.processOriginForPreflight icfg buf origin [origin] = GoRt.result buf (Serve.processOriginForPreflight (modelDec icfg) icfg buf origin) ∧
+    Gen.Pipeline.processACRPN icfg buf reqHdrs = GoRt.result buf (Serve.processACRPN icfg buf reqHdrs) ∧
+    Gen.Pipeline.processACRM icfg buf acrm [acrm] = GoRt.result buf (Serve.processACRM icfg buf acrm) ∧
+    Gen.Pipeline.processACRH icfg buf reqHdrs debug = GoRt.result buf (Serve.processACRH (modelDec icfg) icfg buf reqHdrs debug) :=
   ⟨processOriginForPreflight_eq icfg buf origin, processACRPN_eq icfg buf reqHdrs, processACRM_eq icfg buf acrm,
     processACRH_eq icfg buf reqHdrs debug⟩
 
